@@ -92,13 +92,46 @@ func setup(h *H) (*C, func()) {
 	return &c, closer
 }
 
+// dataEOFReader hands out its last bytes together with io.EOF, as the io.Reader contract allows
+// (http response bodies, section readers, flate/tar readers do).
+type dataEOFReader struct {
+	b    []byte
+	step int
+}
+
+func (r *dataEOFReader) Read(p []byte) (int, error) {
+	if len(r.b) == 0 {
+		return 0, io.EOF
+	}
+	n := r.step
+	if n <= 0 || n > len(r.b) {
+		n = len(r.b)
+	}
+	if n > len(p) {
+		n = len(p)
+	}
+	copy(p, r.b[:n])
+	r.b = r.b[n:]
+	if len(r.b) == 0 {
+		return n, io.EOF
+	}
+	return n, nil
+}
+
 // HarnessReader: one call carrying a reader of L arbitrary bytes; every read pattern.
 func HarnessReader() {
 	h := &H{pattern: verif.Choice("pattern", 4)}
 	c, closer := setup(h)
 	defer closer()
 	payload := verif.Bytes("payload", verif.Bound("L", 2))
-	n, err := c.Consume(context.Background(), bytes.NewReader(payload))
+	var src io.Reader = bytes.NewReader(payload)
+	switch verif.Choice("reader_kind", 3) {
+	case 1: // the last bytes arrive together with EOF
+		src = &dataEOFReader{b: append([]byte(nil), payload...)}
+	case 2: // one byte per Read, the last one together with EOF
+		src = &dataEOFReader{b: append([]byte(nil), payload...), step: 1}
+	}
+	n, err := c.Consume(context.Background(), src)
 	verif.Assert(err == nil, "call-succeeds-no-handler-panic")
 	verif.Assert(n == len(payload) && len(h.got) == len(payload), "handler-sees-all-bytes")
 	for i := 0; i < len(h.got) && i < len(payload); i++ {
